@@ -777,7 +777,11 @@ libGetHeader(Lib lib)
 	LIB_SEEK(lib, long0);
 	cc = libHdrSize;
 	s = strAlloc(cc);
-	FILE_GET_CHARS(lib->file, s, cc);
+	if (fread(s, BYTE_BYTES, cc, lib->file) != cc) {
+		/* Truncated file: not even a whole header. */
+		libError(lib, ALDOR_E_LibBadSectHdr);
+		comsgFatal(NULL, ALDOR_F_CantOpen, libToStringStatic(lib));
+	}
 	buf = bufCapture(s, cc);
 
 	lib->hdr.magic = bufGetHInt(buf);
@@ -801,7 +805,9 @@ libGetHeader(Lib lib)
 			libNameIndex(lib, n) = i;
 	}
 
-	libChkHeader(lib);
+	/* A header that fails the check must not be used: its offsets are not to be trusted. */
+	if (!libChkHeader(lib))
+		comsgFatal(NULL, ALDOR_F_CantOpen, libToStringStatic(lib));
 	return lib;
 }
 
